@@ -224,9 +224,35 @@ class Check(Property):
         return None
 
     # ------------------------------------------------------------------ oracle: the property itself
+    def shared_context_probe(self):
+        """a Context built in code (keys given as derived dimension names) and shared between two registries must not
+        be modified by being activated in one of them"""
+        import pint
+        v = []
+        u1, u2 = regs.fresh("float"), regs.fresh("float")
+        ctx = pint.Context("c12shared", defaults={"n": 1})
+        ctx.add_transformation("[length]", "[time]", lambda ureg, x, n: x * n * ureg.second / ureg.meter)
+        ctx.add_transformation("[speed]", "[mass]", lambda ureg, x, n: x * n * ureg.gram * ureg.second / ureg.meter)
+        before = ([str(k) for k in ctx.funcs], dict(ctx.defaults), ctx.checked)
+        u1.add_context(ctx)
+        with u1.context("c12shared", n=3):
+            u1.Quantity(2, "m").to("s")
+        after = ([str(k) for k in ctx.funcs], dict(ctx.defaults), ctx.checked)
+        if after != before:
+            v.append(f"C12 [known finding F7] a Context shared between registries was modified by its first activation: "
+                     f"transformation keys / defaults / checked {before} -> {after}")
+        u2.add_context(ctx)
+        with u2.context("c12shared"):
+            if u2.Quantity(2, "m/s").to("g").magnitude != 2.0:
+                v.append("C12 the second registry converts differently through the shared context")
+        return v
+
     def oracle(self, c):
         import pint
         v = []
+        if not getattr(self, "_shared_probe_done", False):
+            self._shared_probe_done = True
+            v += self.shared_context_probe()
         u = self.runner().u
         logging.disable(logging.CRITICAL)
         added = []
